@@ -130,6 +130,27 @@ class BaseMultiportMemory(Elaboratable):
         )
 
 
+    def _elaborate_rom(self):
+        """Without write ports the memory is a ROM: one plain memory block per read port holds the initial content."""
+        m = Module()
+
+        self._frozen = True
+
+        for port in self.read_ports:
+            mem = memory.Memory(
+                shape=self.shape, depth=self.depth, init=self.init, attrs=self.attrs, src_loc_at=self.src_loc
+            )
+            m.submodules += mem
+            physical_read_port = mem.read_port()
+            m.d.comb += [
+                physical_read_port.addr.eq(port.addr),
+                port.data.eq(physical_read_port.data),
+                physical_read_port.en.eq(port.en),
+            ]
+
+        return m
+
+
 class MultiReadMemory(BaseMultiportMemory):
     """Memory with one write and multiple read ports.
 
@@ -207,6 +228,9 @@ class MultiportXORMemory(BaseMultiportMemory):
         return super().write_port(domain=domain, granularity=granularity, src_loc_at=src_loc_at)
 
     def elaborate(self, platform):
+        if not self.write_ports:
+            return self._elaborate_rom()
+
         m = TModule()
 
         self._frozen = True
@@ -471,6 +495,9 @@ class MultiportILVTMemory(BaseMultiportMemory):
         super().__init__(shape=shape, depth=depth, init=init, attrs=attrs, src_loc_at=src_loc_at)
 
     def elaborate(self, platform):
+        if not self.write_ports:
+            return self._elaborate_rom()
+
         m = Module()
 
         self._frozen = True
